@@ -164,6 +164,7 @@ type State struct {
 	now      *Term
 	clockFrozen bool
 	preempts int
+	initMode bool
 	timersFrozen bool
 	model    *Model
 	modelLen int
